@@ -7,11 +7,17 @@ from .. import common
 from ..common import rat, unrat
 
 PROP = "C19"
-RULE = ("expression trees built THROUGH sympy from a seeded builder grammar (leaves: symbols, ints, rationals, floats, I; "
-        "ops: add/sub/mul/div/pow/sqrt/neg/cos/sin/exp/tan; an unsupported-construct stream; an evaluate=False stream), "
-        "hand-made neutral trees for translate_expression, symbol names with digit groups for the sort keys. "
-        "non-trivial: builder tree of depth >= 3 containing a subtraction, a division or a root (expr); a neutral tree with "
-        ">= 2 nested calls (translate); a name pair whose digit groups differ in length (keys). distinct = canonical JSON")
+RULE = ("expression trees built THROUGH sympy from a seeded builder grammar (leaves: symbols - plain, Dummy, with "
+        "assumptions, exotic names, names that print like another expression -, ints, rationals, floats, I, huge/tiny "
+        "constants; ops: add/sub/mul/div/pow/sqrt/neg/cos/sin/exp/tan; an unsupported-construct stream; an evaluate=False "
+        "stream); every expression is converted and translated TWICE with another dialect in between; sessions = "
+        "base / one-component sibling / base again run on the same module state (expr and neutral-tree sessions); "
+        "hand-made neutral trees (tuple or list argument containers) for translate_expression; symbol names with digit "
+        "groups for the sort keys, and key histories (call, edit the returned list, call again, on equal-but-not-identical "
+        "symbol objects and sibling names). "
+        "non-trivial: builder tree of depth >= 3 containing a subtraction, a division or a root (expr / session steps); a "
+        "neutral tree with >= 2 nested calls (translate / tsession); a name pair whose digit groups differ in length "
+        "(keys); a key history over >= 2 names with a digit group. distinct = canonical JSON")
 TRUSTED = [
     "sympy: `e * (-1)` on a Mul with leading coefficient -1 returns the product of the remaining factors "
     "(OQ.C19.negMul; only its laws value-negation / size / grammar-closure are used by the theorems, and they are proved for negMul)",
@@ -21,6 +27,8 @@ TRUSTED = [
     "float(sympy.Rational) / float(sympy.Float) are the value itself up to double rounding (the model keeps the exact rational; "
     "the oracle rounds the constants of the original the same way before comparing)",
     "re.split(r'(\\d+)', s) / str.isdigit / int on ASCII names (model: OQ.C19.splitGo, convGroup, valDigits)",
+    "the identity of a sympy symbol is its printed name str(s) (model: SExpr.symbol carries str(s); Dummy('x') is '_x'); "
+    "the harness assigns values to the SYMBOL OBJECTS of the original and to Symbol(str(s)) of the translation",
 ]
 ASSUMPTIONS = [
     "symbol names are ASCII for the sort-key model (str.isdigit accepts characters int() rejects, e.g. superscript two)",
@@ -28,9 +36,20 @@ ASSUMPTIONS = [
     "the Lean statement uses the total field convention 0^-1 = 0 on both sides",
     "evaluate=False (non-canonical) trees are checked by the oracle; they are compared with the model only when no "
     "x + (-1)*y special case occurs (the model's negMul describes sympy's result on canonical products)",
+    "symbols carrying assumptions (real / positive / integer) are assigned values satisfying them; "
+    "two DIFFERENT symbols that print identically (same name with different assumptions, two Dummies of one name, "
+    "Dummy('x') next to Symbol('_x')) cannot be kept apart by a neutral tree whose symbols are names: the unchanged "
+    "library merges them (known finding sig=distinct-symbols-printing-identically-are-merged); the oracle fails such a "
+    "case only when NO choice of value for the merged symbol reproduces the original's value",
+    "sympy.Wild placeholders are neither required to be translated nor to be refused (if translated, the value must be preserved)",
 ]
 
 SYMS = ["x", "y", "z", "theta_1", "beta_10", "a0"]
+# exotic but legal symbol names: names of sympy constants / dialect keys / python keywords, names with separators that
+# sympy.symbols() or sympify() would interpret, names that PRINT like another expression, non-ASCII, case variants
+EXOTIC = ["I", "E", "pi", "oo", "S", "lambda", "add", "cos", "sqrt", "x y", "x,y", "a:3", "beta_{10}", "x'", "1", "2x",
+          "x + y", "2*x", "cos(x)", "x**2", "-x", "1/2", "\u03b8", "X", "x_", "_x", "None", "True", "theta_01", "beta_2"]
+ASSUME = ["real", "positive", "integer"]
 ELEM = ["cos", "sin", "exp", "tan"]
 KEYS = ["add", "mul", "div", "sub", "pow", "cos", "sin", "exp", "sqrt", "tan"]
 
@@ -52,6 +71,14 @@ def build(t):
     k = t[0]
     if k == "sym":
         return sympy.Symbol(t[1])
+    if k == "dummy":  # distinct index = distinct symbol with the same bare name; prints as "_" + name
+        return sympy.Dummy(t[1], dummy_index=900000 + int(t[2]))
+    if k == "asym":   # same name, different content: a symbol carrying an assumption
+        return sympy.Symbol(t[1], **{t[2]: True})
+    if k == "wild":
+        return sympy.Wild(t[1])
+    if k == "symstr":  # ONE symbol whose name is the printed form of another expression
+        return sympy.Symbol(str(build(t[1])))
     if k == "int":
         return sympy.Integer(t[1])
     if k == "rat":
@@ -241,12 +268,14 @@ def _sympy_call(cname, a):
 
 # ------------------------------------------------------------------ python-side grammar classification (oracle)
 def py_class(e):
-    """('supported'|'collision'|'passthrough'|'unsupported', construct) by an independent walk of the sympy tree"""
+    """('supported'|'lenient'|'collision'|'passthrough'|'unsupported', construct) by an independent walk of the sympy
+    tree.  'lenient' (a Wild placeholder occurs): neither translation nor refusal is demanded, only that a translation,
+    if given, preserves the value"""
     import sympy
     from sympy.core.function import AppliedUndef
     from sympy.core.numbers import ImaginaryUnit
     worst = ["supported", ""]
-    rank = {"supported": 0, "passthrough": 1, "collision": 2, "unsupported": 3}
+    rank = {"supported": 0, "lenient": 1, "passthrough": 2, "collision": 3, "unsupported": 4}
 
     def note(c, what):
         if rank[c] > rank[worst[0]]:
@@ -262,8 +291,8 @@ def py_class(e):
             note("unsupported", type(n).__name__)
             return
         if isinstance(n, (sympy.Symbol, sympy.Integer, sympy.Float, sympy.Rational, ImaginaryUnit)):
-            if isinstance(n, (sympy.Dummy, sympy.Wild)):
-                note("unsupported", type(n).__name__)
+            if isinstance(n, sympy.Wild):  # a Dummy IS a symbol of the supported grammar
+                note("lenient", type(n).__name__)
             return
         if isinstance(n, (sympy.Add, sympy.Mul, sympy.Pow)):
             if len(n.args) == 0:
@@ -356,13 +385,59 @@ def round_constants(e):
     return e.xreplace(rep) if rep else e
 
 
-def _point(symbols, vals):
+def _symkey(s):
+    return (str(s), type(s).__name__, int(getattr(s, "dummy_index", 0) or 0), sorted((k, bool(v)) for k, v in s.assumptions0.items()))
+
+
+def _assign(e, pt):
+    """an assignment of THE SYMBOL OBJECTS of e: the i-th free symbol (deterministic order) gets the i-th value of the
+    point, adjusted so that it satisfies the symbol's own assumptions.  Returns [(symbol, value)]"""
     import sympy
-    m = {}
-    for s, v in zip(symbols, vals):
-        re_, im_ = Fraction(v[0]), Fraction(v[1])
-        m[s] = sympy.Rational(re_.numerator, re_.denominator) + sympy.I * sympy.Rational(im_.numerator, im_.denominator)
-    return m
+    if not isinstance(e, sympy.Basic) or not pt:
+        return []
+    out = []
+    for i, s in enumerate(sorted(e.free_symbols, key=_symkey)):
+        re_, im_ = Fraction(pt[i % len(pt)][0]), Fraction(pt[i % len(pt)][1])
+        if s.is_integer:
+            re_, im_ = Fraction((1 if re_ > 0 else -1) * (abs(re_.numerator) % 5 + 1)), Fraction(0)
+            if s.is_positive or s.is_nonnegative:
+                re_ = abs(re_)
+        elif s.is_positive or s.is_nonnegative:
+            re_, im_ = abs(re_), Fraction(0)
+        elif s.is_negative or s.is_nonpositive:
+            re_, im_ = -abs(re_), Fraction(0)
+        elif s.is_real:
+            im_ = Fraction(0)
+        out.append((s, sympy.Rational(re_.numerator, re_.denominator) + sympy.I * sympy.Rational(im_.numerator, im_.denominator)))
+    return out
+
+
+def _back_maps(asg):
+    """assignments of the translation's symbols.  A translated symbol is recognised by the PRINTED name of the original
+    symbol (Dummy('x') prints '_x'), or by its bare `.name` where that is not the printed name of a symbol of the
+    expression - either naming is a faithful translation as long as different symbols stay different.
+    Normally that gives one map.  When different symbols of the original print identically the neutral tree cannot keep
+    them apart; then every choice of one member's value for the shared name is returned (at most 32 maps)"""
+    import itertools
+    import sympy
+    groups = {}
+    for s, v in asg:
+        groups.setdefault(str(s), []).append(v)
+    alias = any(len(v) > 1 for v in groups.values())
+    printed = set(groups)
+    for s, v in asg:
+        if s.name not in printed and v not in groups.get(s.name, []):
+            groups.setdefault(s.name, []).append(v)
+    names = sorted(groups)
+    maps = []
+    for choice in itertools.islice(itertools.product(*[groups[n] for n in names]), 32):
+        maps.append({sympy.Symbol(n): v for n, v in zip(names, choice)})
+    return maps, alias
+
+
+def _at(asg):
+    return {f"{type(s).__name__}({s.name!r}" + "".join(f", {k}" for k in ASSUME if s.assumptions0.get(k))
+            + (f", #{s.dummy_index - 900000}" if isinstance(s, __import__("sympy").Dummy) else "") + ")": str(v) for s, v in asg}
 
 
 def _num(e, m):
@@ -389,7 +464,13 @@ def corpus():
     x, y, z = ["sym", "x"], ["sym", "y"], ["sym", "z"]
     pts = [[["3/4", "0"], ["-5/8", "0"], ["7/4", "1/2"], ["5/4", "0"], ["-3/8", "0"], ["9/8", "0"]],
            [["-11/8", "0"], ["2", "0"], ["1/8", "0"], ["3/8", "-1/4"], ["7/8", "0"], ["-2", "0"]]]
-    return [
+    # every one-hole context of the dispatcher around (i) a symbol and the Dummy of the same bare name, (ii) an
+    # expression and the single symbol that prints like it
+    contexts = []
+    for a_, b_ in ((x, ["dummy", "x", 0]), (["add", x, y], ["symstr", ["add", x, y]])):
+        for j, t in enumerate(_context_templates(a_, b_, z)[0::2]):
+            contexts.append({"kind": "expr", "b": t, "pts": pts[:1], "ord": j % 2})
+    return contexts + [
         {"kind": "expr", "b": ["sub", x, y], "pts": pts},
         {"kind": "expr", "b": ["sub", x, ["mul", ["int", 2], y]], "pts": pts},
         {"kind": "expr", "b": ["sub", ["add", ["neg", x], y], z], "pts": pts},
@@ -410,6 +491,45 @@ def corpus():
         {"kind": "expr", "b": ["pyint", 3], "pts": []},
         {"kind": "expr", "b": ["pycplx", "1/2", "-2"], "pts": []},
         {"kind": "expr", "b": ["pyobj", "str"], "pts": []},
+        # different symbols sharing a bare name but printing differently must stay different
+        {"kind": "expr", "b": ["sub", x, ["dummy", "x", 0]], "pts": pts},
+        {"kind": "expr", "b": ["add", ["mul", x, ["dummy", "x", 0]], ["int", 1]], "pts": pts, "ord": 1},
+        {"kind": "expr", "b": ["div", ["fn", "sin", [["sym", "theta_3"]]], ["add", ["int", 2], ["pow", ["dummy", "theta_3", 0], ["int", 2]]]], "pts": pts},
+        {"kind": "expr", "b": ["sub", ["dummy", "x", 0], ["dummy", "y", 1]], "pts": pts},
+        {"kind": "expr", "b": ["fn", "cos", [["dummy", "x", 0]]], "pts": pts},
+        {"kind": "expr", "b": ["sub", ["sym", "x"], ["sym", "X"]], "pts": pts},
+        # exotic but legal names
+        {"kind": "expr", "b": ["add", ["mul", ["sym", "I"], ["I"]], ["sym", "pi"]], "pts": pts},
+        {"kind": "expr", "b": ["sub", ["sym", "x,y"], ["div", ["sym", "a:3"], ["sym", "x y"]]], "pts": pts},
+        {"kind": "expr", "b": ["sub", ["symstr", ["add", x, y]], ["add", x, y]], "pts": pts},
+        {"kind": "expr", "b": ["mul", ["sym", "\u03b8"], ["sym", "lambda"]], "pts": pts},
+        # assumptions (values satisfy them)
+        {"kind": "expr", "b": ["sqrt", ["mul", ["asym", "p", "positive"], y]], "pts": pts},
+        {"kind": "expr", "b": ["pow", ["int", -1], ["asym", "n", "integer"]], "pts": pts},
+        # different symbols that PRINT identically: merged by the unchanged library (known finding)
+        {"kind": "expr", "b": ["sub", ["asym", "x", "real"], x], "pts": pts},
+        {"kind": "expr", "b": ["sub", ["dummy", "x", 0], ["dummy", "x", 1]], "pts": pts},
+        {"kind": "expr", "b": ["add", ["dummy", "x", 0], ["mul", ["int", 2], ["sym", "_x"]]], "pts": pts},
+        # huge integers
+        {"kind": "expr", "b": ["sub", ["mul", ["int", 2 ** 64], x], ["div", ["int", 10 ** 30 + 7], y]], "pts": pts},
+        # histories
+        {"kind": "session", "steps": [{"b": ["sub", x, y], "pts": pts}, {"b": ["sub", x, ["dummy", "y", 0]], "pts": pts, "ord": 1},
+                                      {"b": ["sub", x, y], "pts": pts}]},
+        {"kind": "session", "steps": [{"b": ["add", x, ["int", 1]], "pts": pts, "ord": 1}, {"b": ["symstr", ["add", x, ["int", 1]]], "pts": pts},
+                                      {"b": ["add", x, ["flt", "1"]], "pts": pts}, {"b": ["add", x, ["int", 1]], "pts": pts}]},
+        {"kind": "session", "steps": [{"b": ["pow", x, ["rat", "1/2"]], "pts": pts}, {"b": ["pow", x, ["flt", "1/2"]], "pts": pts},
+                                      {"b": ["pow", x, ["rat", "1/3"]], "pts": pts}, {"b": ["pow", x, ["rat", "1/2"]], "pts": pts}]},
+        {"kind": "tsession", "steps": [{"t": ["call", "pow", [["sym", "a"], ["num", ["int", 1]]]]},
+                                       {"t": ["call", "pow", [["sym", "a"], ["num", ["flt", "1"]]]], "list": True, "ord": 1},
+                                       {"t": ["call", "pow", [["sym", "a"], ["num", ["cplx", "1", "0"]]]]},
+                                       {"t": ["call", "pow", [["sym", "a"], ["num", ["int", 1]]]]}]},
+        {"kind": "tsession", "steps": [{"t": ["call", "cos", [["sym", "a"]]]}, {"t": ["call", "cosh", [["sym", "a"]]], "ord": 1},
+                                       {"t": ["call", "cos", [["sym", "b"]]], "list": True}, {"t": ["call", "cosh", [["sym", "a"]]]}]},
+        {"kind": "translate", "t": ["call", "add", [["sym", "a"], ["sym", "a"], ["call", "mul", [["sym", "a"], ["sym", "a"]]]]], "list": True, "ord": 1},
+        {"kind": "keyhist", "names": ["beta_2", "beta_10", "Beta_2", "beta_02"],
+         "ops": [["nat", 0, "ex", "reverse"], ["rev", 0, "ex", "reverse"], ["nat", 0, "ex2", "append"], ["nat", 0, "sp", "clear"],
+                 ["sortnat", 0, "ex", "none"], ["nat", 2, "ex", "set0"], ["nat", 3, "du", "none"], ["rev", 1, "sp", "append"],
+                 ["sortrev", 0, "sp", "none"], ["nat", 0, "ex", "none"], ["sortnat", 0, "du", "none"]]},
         {"kind": "translate", "t": ["call", "add", [["sym", "a"], ["num", ["int", 2]], ["sym", "c"]]]},
         {"kind": "translate", "t": ["call", "sub", [["sym", "a"]]]},
         {"kind": "translate", "t": ["call", "add", []]},
@@ -423,9 +543,36 @@ def corpus():
     ]
 
 
+_CTX = {"syms": None}   # the symbol palette of the case being generated (None: the six plain names)
+
+
+def _palette(rng):
+    """symbol leaves of one case.  Kinds: exotic names; a CONFUSABLE group (different symbols sharing a bare name but
+    printing differently: Symbol x / Dummy x, case variants, trailing underscore); symbols with assumptions; an ALIAS
+    group (different symbols printing identically - the known finding); a Wild"""
+    names = SYMS + EXOTIC
+    n, m = rng.sample(names, 2)
+    k = rng.random()
+    if k < 0.30:
+        pal = [["sym", n], ["dummy", n, 0], rng.choice([["sym", m], ["dummy", m, 1], ["sym", n + "_"], ["sym", n.swapcase()]])]
+    elif k < 0.65:
+        pal = [["sym", x] for x in rng.sample(names, rng.randrange(2, 5))]
+    elif k < 0.80:
+        pal = [["asym", n, rng.choice(ASSUME)], ["sym", m], ["asym", rng.choice(SYMS) + "q", rng.choice(ASSUME)]]
+    elif k < 0.92:
+        a = rng.choice(ASSUME)
+        pal = rng.choice([[["sym", n], ["asym", n, a]], [["dummy", n, 0], ["dummy", n, 1]], [["dummy", n, 0], ["sym", "_" + n]],
+                          [["asym", n, a], ["asym", n, rng.choice([b for b in ASSUME if b != a])]]]) + [["sym", m]]
+    else:
+        pal = [["wild", n], ["sym", m]]
+    return pal
+
+
 def _leaf(rng, allow_I=True):
     r = rng.random()
     if r < 0.45:
+        if _CTX["syms"]:
+            return list(rng.choice(_CTX["syms"]))
         return ["sym", rng.choice(SYMS)]
     if r < 0.65:
         return ["int", rng.choice([0, 1, -1, 2, -2, 3, 5, -7, 10])]
@@ -500,15 +647,246 @@ def _gen_noncanon(rng, depth):
 
 
 def _pts(rng, n):
+    """n points; a point is a list of 8 values (re, im) with pairwise different non-zero real parts: the i-th free symbol
+    of the expression (in a fixed order) takes the i-th value, so different symbols get different values"""
     out = []
     for _ in range(n):
+        res = rng.sample([s_ * k for s_ in (-1, 1) for k in range(1, 24)], 8)
         pt = []
-        for _s in SYMS:
-            re_ = Fraction(rng.choice([-1, 1]) * rng.randrange(1, 24), 8)
+        for r_ in res:
             im_ = Fraction(rng.randrange(-8, 9), 8) if rng.random() < 0.25 else Fraction(0)
-            pt.append([str(re_), str(im_)])
+            pt.append([str(Fraction(r_, 8)), str(im_)])
         out.append(pt)
     return out
+
+
+def _paths(t, pre=()):
+    """paths of all builder nodes"""
+    out = [pre]
+    if t[0] in ("add", "sub", "mul", "div", "pow"):
+        out += _paths(t[1], pre + (1,)) + _paths(t[2], pre + (2,))
+    elif t[0] in ("sqrt", "neg", "symstr", "deriv"):
+        out += _paths(t[1], pre + (1,))
+    elif t[0] in ("fn", "undef"):
+        for j, a in enumerate(t[2]):
+            out += _paths(a, pre + (2, j))
+    elif t[0] in ("add_ne", "mul_ne"):
+        for j, a in enumerate(t[1]):
+            out += _paths(a, pre + (1, j))
+    elif t[0] == "pow_ne":
+        out += _paths(t[1], pre + (1,)) + _paths(t[2], pre + (2,))
+    return out
+
+
+def _get(t, path):
+    for j in path:
+        t = t[j]
+    return t
+
+
+def _put(t, path, new):
+    if not path:
+        return new
+    t = list(t)
+    t[path[0]] = _put(t[path[0]], path[1:], new)
+    return t
+
+
+_EXPS = [["int", 2], ["int", -1], ["int", -2], ["int", 3], ["rat", "1/2"], ["rat", "-1/2"], ["flt", "1/2"],
+         ["flt", "-1"], ["rat", "1/3"], ["int", 1], ["flt", "2"], ["rat", "3/2"]]
+
+
+def _sibling(rng, t):
+    """the builder tree with EXACTLY ONE component changed (a leaf replaced by an equal-looking / equal-valued /
+    neighbouring one, an operator by its partner, two operands swapped)"""
+    paths = _paths(t)
+    for _ in range(40):
+        p = rng.choice(paths)
+        n = _get(t, p)
+        k = n[0]
+        in_exponent = any(_get(t, p[:j])[0] in ("pow", "pow_ne") and p[j] == 2 for j in range(len(p)))
+        new = None
+        if k == "sym":
+            new = rng.choice([["dummy", n[1], 0], ["sym", rng.choice([x for x in SYMS if x != n[1]])],
+                              ["asym", n[1], rng.choice(ASSUME)], ["sym", n[1] + "_"], ["sym", "_" + n[1]]])
+        elif k == "dummy":
+            new = rng.choice([["sym", n[1]], ["dummy", n[1], int(n[2]) + 1], ["sym", "_" + n[1]]])
+        elif k == "asym":
+            new = ["sym", n[1]]
+        elif k == "int":
+            new = rng.choice([["flt", str(n[1])], ["int", n[1] + 1], ["int", -n[1]]])
+        elif k == "rat":
+            f = Fraction(n[1])
+            new = ["flt", n[1]] if f.denominator & (f.denominator - 1) == 0 else ["rat", str(-f)]
+        elif k == "flt":
+            f = Fraction(n[1])
+            new = ["int", int(f)] if f.denominator == 1 and rng.random() < 0.6 else ["rat", n[1]]
+        elif k in ("add", "sub", "mul", "div") and not in_exponent:
+            r = rng.random()
+            if r < 0.5:
+                new = [{"add": "sub", "sub": "add", "mul": "div", "div": "mul"}[k], n[1], n[2]]
+            elif k in ("sub", "div"):
+                new = [k, n[2], n[1]]
+        elif k == "pow" and n[2] in _EXPS:
+            new = ["pow", n[1], rng.choice([e for e in _EXPS if e != n[2]])]
+        elif k == "fn" and n[1] in ("cos", "sin", "tan"):
+            new = ["fn", rng.choice([f for f in ("cos", "sin", "tan") if f != n[1]]), n[2]]
+        elif k == "neg":
+            new = n[1]
+        elif k == "sqrt":
+            new = ["pow", n[1], rng.choice([["rat", "1/2"], ["flt", "1/2"], ["rat", "1/3"]])]
+        if new is not None and new != n:
+            return _put(t, p, new)
+    return ["add", t, ["int", 1]]
+
+
+def _pair_templates(a, b, c):
+    """small expressions that put two symbols (and a bystander c) into EVERY branch of the dispatcher: plain sum, the
+    x + (-1)*y special case, products, the x * y**-1 special case, reciprocal, square root, general power, elementary
+    functions, argument tuples, evaluate=False nodes"""
+    two, half = ["int", 2], ["rat", "1/2"]
+    return [
+        ["add", a, b], ["sub", a, b], ["sub", b, a], ["mul", a, b], ["div", a, b], ["div", b, a], ["pow", a, b], ["pow", b, a],
+        ["add", ["add", a, b], c], ["sub", ["mul", two, a], ["mul", ["int", 3], b]], ["add", ["div", ["int", 1], a], b],
+        ["sub", ["sqrt", a], ["sqrt", b]], ["mul", ["sqrt", a], b], ["add", ["pow", a, two], ["pow", b, two]],
+        ["add", ["pow", a, ["rat", "1/3"]], ["pow", b, ["flt", "1/2"]]], ["sub", ["fn", "cos", [a]], ["fn", "cos", [b]]],
+        ["mul", ["fn", "sin", [a]], ["fn", "exp", [b]]], ["fn", "tan", [["sub", a, b]]], ["fn", "exp", [["mul", a, b]]],
+        ["div", ["add", a, c], ["sub", b, c]], ["div", a, ["mul", b, c]], ["neg", ["add", a, b]], ["sub", ["neg", a], b],
+        ["pow", ["add", a, b], ["int", -1]], ["pow", ["mul", a, b], half], ["mul", ["mul", a, b], ["pow", c, ["int", -1]]],
+        ["add_ne", [a, b]], ["add_ne", [a, ["mul_ne", [["int", -1], b]]]], ["mul_ne", [a, b]], ["mul_ne", [a, ["pow_ne", b, ["int", -1]]]],
+        ["pow_ne", a, b], ["add_ne", [a, b, a]], ["mul_ne", [b, a, b]],
+    ]
+
+
+def _context_templates(a, b, c):
+    """the SAME one-hole context around each of the two: f(a) - f(b) and f(a) + 2*f(b) for every unary context f the
+    dispatcher distinguishes (a handler that remembers its answer under too coarse a description of its operand
+    answers f(b) with f(a))"""
+    two = ["int", 2]
+    ctx = [lambda t: ["pow", t, two], lambda t: ["pow", t, ["rat", "1/3"]], lambda t: ["pow", two, t], lambda t: ["pow", t, c],
+           lambda t: ["fn", "cos", [t]], lambda t: ["fn", "exp", [t]], lambda t: ["sqrt", t], lambda t: ["div", ["int", 1], t],
+           lambda t: ["mul", t, c], lambda t: ["add", t, c], lambda t: ["sub", c, t], lambda t: ["sub", t, c], lambda t: ["div", t, c],
+           lambda t: ["div", c, t], lambda t: ["neg", t], lambda t: ["pow", t, ["int", -2]], lambda t: ["fn", "tan", [["mul", two, t]]]]
+    out = []
+    for f in ctx:
+        out.append(["sub", f(a), f(b)])
+        out.append(["add", f(a), ["mul", two, f(b)]])
+    return out
+
+
+def _confusable_pair(rng):
+    """two DIFFERENT symbols that a shortcut (bare name, case folding, stripping, a cache key) would identify, but whose
+    printed names differ"""
+    n = rng.choice(SYMS + EXOTIC)
+    if rng.random() < 0.2:
+        # an expression and ONE symbol that prints exactly like it
+        x, y = ["sym", rng.choice(SYMS)], ["sym", rng.choice(SYMS + EXOTIC)]
+        e = rng.choice([["add", x, y], ["mul", ["int", 2], x], ["fn", "cos", [x]], ["pow", x, ["int", 2]], ["div", x, ["add", y, ["int", 1]]],
+                        ["neg", x], ["sub", x, ["int", 1]], ["sqrt", x], ["mul", x, ["I"]], ["rat", "1/2"], ["int", 7], ["flt", "3/2"]])
+        return e, ["symstr", e]
+    k = rng.random()
+    if k < 0.4:
+        return ["sym", n], ["dummy", n, 0]
+    if k < 0.5:
+        return ["dummy", n, 0], ["dummy", rng.choice([x for x in SYMS if x != n]), 0]
+    if k < 0.6 and n.swapcase() != n:
+        return ["sym", n], ["sym", n.swapcase()]
+    if k < 0.7:
+        return ["sym", n], ["sym", n + rng.choice(["_", " ", "'", "0"])]
+    if k < 0.8:
+        return ["sym", n], ["sym", rng.choice(["_", " "]) + n]
+    if k < 0.9:
+        return ["asym", n, rng.choice(ASSUME)], ["dummy", n, 0]
+    return ["sym", n], ["symstr", ["sym", n + n]]
+
+
+def _gen_exact(rng, depth):
+    """rational functions over symbols and (huge, negative, zero) integers only: every value is exact on both sides"""
+    if depth <= 0 or rng.random() < 0.15:
+        if rng.random() < 0.5:
+            return ["sym", rng.choice(SYMS)]
+        return ["int", rng.choice([0, 1, -1, 2, 3, -7, 10 ** 12, -(10 ** 15) + 1, 2 ** 53 + 1, 2 ** 64, -(2 ** 63) - 1,
+                                   10 ** 30 + 7, 99999999999999999999])]
+    op = rng.choice(["add", "sub", "mul", "div", "neg", "pow", "sub", "div"])
+    if op == "neg":
+        return ["neg", _gen_exact(rng, depth - 1)]
+    if op == "pow":
+        return ["pow", _gen_exact(rng, depth - 1), ["int", rng.choice([2, -1, 3, -2])]]
+    return [op, _gen_exact(rng, depth - 1), _gen_exact(rng, depth - 1)]
+
+
+def _nsibling(rng, t):
+    """a neutral tree with exactly one component changed: a number by an EQUAL number of another Python type
+    (1 == 1.0 == 1+0j, also as dict keys), a symbol renamed, a function name replaced, an argument dropped or doubled"""
+    paths = []
+
+    def walk(n, pre):
+        paths.append(pre)
+        if n[0] == "call":
+            for j, a in enumerate(n[2]):
+                walk(a, pre + (2, j))
+
+    walk(t, ())
+    for _ in range(30):
+        p = rng.choice(paths)
+        n = _get(t, p)
+        new = None
+        if n[0] == "num":
+            kind = n[1][0]
+            if kind == "int":
+                new = rng.choice([["num", ["flt", str(n[1][1])]], ["num", ["cplx", str(n[1][1]), "0"]], ["num", ["int", n[1][1] + 1]]])
+            elif kind == "flt":
+                f = Fraction(n[1][1])
+                new = ["num", ["int", int(f)]] if f.denominator == 1 else ["num", ["cplx", n[1][1], "0"]]
+            else:
+                new = ["num", ["flt", n[1][1]]] if Fraction(n[1][2]) == 0 else ["num", ["cplx", n[1][2], n[1][1]]]
+        elif n[0] == "sym":
+            new = ["sym", rng.choice([x for x in SYMS + EXOTIC if x != n[1]])]
+        elif n[0] == "call":
+            r = rng.random()
+            if r < 0.5:
+                partner = {"add": "mul", "mul": "add", "sub": "div", "div": "sub", "cos": "sin", "sin": "cos", "exp": "tan",
+                           "tan": "exp", "pow": "sub", "sqrt": "cos"}
+                new = ["call", rng.choice([partner.get(n[1], "add"), "cosh", n[1].upper() or "f", n[1] + " "]), n[2]]
+            elif r < 0.75 and n[1] in ("add", "mul") and n[2]:
+                new = ["call", n[1], n[2] + [n[2][-1]]]        # a repeated equal argument
+            elif n[1] in ("add", "mul") and len(n[2]) > 1:
+                new = ["call", n[1], n[2][:-1]]
+        if new is not None and new != n:
+            return _put(t, p, new)
+    return ["call", "add", [t, ["num", ["int", 1]]]]
+
+
+def _name_siblings(rng, name):
+    """names that an incomplete cache key / a shortcut would confuse with `name`"""
+    out = [name.swapcase(), name + "0", name + "_", "0" + name, name[:-1], name[1:], name + name]
+    toks = re.split(r"(\d+)", name)
+    for j in range(1, len(toks), 2):
+        for rep in ("0" + toks[j], "00" + toks[j], str(int(toks[j]) + 1), str(int(toks[j]) * 10), toks[j].lstrip("0") or "0", toks[j] + "9"):
+            out.append("".join(toks[:j] + [rep] + toks[j + 1:]))
+        out.append("".join(toks[:j] + toks[j + 1:]))
+    return [n for n in out if n != name]
+
+
+def _gen_keyhist(rng):
+    if rng.random() < 0.6:
+        base = f"{rng.choice(['beta', 'theta', 'gamma', 'a', 'b_c', 'x2y'])}_{rng.choice([0, 1, 2, 7, 9, 10, 11, 20, 100, '007', '010'])}"
+        if rng.random() < 0.4:
+            base += rng.choice(["_1", "_10", "a", "_02", "x3"])
+    else:
+        base = _gen_name(rng)
+    names = [base]
+    sib = _name_siblings(rng, base)
+    for _ in range(rng.randrange(1, 5)):
+        names.append(rng.choice(sib) if sib and rng.random() < 0.8 else _gen_name(rng))
+    if rng.random() < 0.3:
+        names.append(base)   # the same name twice (two equal symbols in one sort)
+    ops = []
+    for _ in range(rng.randrange(5, 12)):
+        op = rng.choice(["nat", "nat", "nat", "nat", "rev", "rev", "rev", "sortnat", "sortrev"])
+        i = rng.randrange(len(names)) if rng.random() < 0.6 else 0
+        ops.append([op, i, rng.choice(["ex", "ex", "ex2", "sp", "du"]), rng.choice(["none", "append", "reverse", "reverse", "clear", "set0"])])
+    return {"kind": "keyhist", "names": names, "ops": ops}
 
 
 def _gen_neutral(rng, depth):
@@ -542,25 +920,97 @@ def _gen_name(rng):
     return "".join(parts)
 
 
+def _exact_ok(b):
+    """the built expression contains integers only (no Rational / Float atom): evaluation is exact on both sides"""
+    import sympy
+    try:
+        e = build(b)
+    except Exception:
+        return False
+    return isinstance(e, sympy.Basic) and all(isinstance(a, sympy.Integer) for a in e.atoms(sympy.Number)) and bool(e.free_symbols)
+
+
+def _gen_session(rng, big):
+    """base expression, a sibling differing in exactly one component, the base again - all on the same module state"""
+    _CTX["syms"] = _palette(rng) if rng.random() < 0.3 else None
+    try:
+        base = _gen_expr(rng, rng.choice([2, 3, 3, 4] if big else [2, 2, 3]))
+    finally:
+        _CTX["syms"] = None
+    r = rng.random()
+    if r < 0.5:
+        sib = _sibling(rng, base)
+    elif r < 0.9:
+        # a sub-expression replaced by ONE symbol that prints exactly like it (same printed form, different content)
+        pth = rng.choice(_paths(base))
+        sib = rng.choice([_put(base, pth, ["symstr", _get(base, pth)]), _put(base, pth, ["symstr", _get(base, pth)]),
+                          ["symstr", base], ["mul", ["symstr", base], base]])
+    else:
+        sib = _sibling(rng, _sibling(rng, base))
+    steps = [{"b": b, "pts": _pts(rng, 1), "ord": rng.randrange(2)} for b in (base, sib, base)]
+    if rng.random() < 0.3:
+        steps.append({"b": sib, "pts": _pts(rng, 1), "ord": rng.randrange(2)})
+    return {"kind": "session", "steps": steps}
+
+
+def _gen_tsession(rng):
+    base = _gen_neutral(rng, rng.choice([1, 2, 3]))
+    if base[0] != "call":
+        base = ["call", rng.choice(["cos", "sqrt", "exp"]), [base]]
+    sib = _nsibling(rng, base)
+    steps = [{"t": t, "list": rng.random() < 0.4, "ord": rng.randrange(2)} for t in (base, sib, base)]
+    return {"kind": "tsession", "steps": steps}
+
+
 def generate(rng, tier):
     big = tier == "thorough"
     cases = []
     for _ in range(1500 if big else 230):
         d = rng.choice([2, 3, 3, 4, 5] if big else [2, 3, 3, 4])
-        cases.append({"kind": "expr", "b": _gen_expr(rng, d), "pts": _pts(rng, 2)})
+        _CTX["syms"] = _palette(rng) if rng.random() < 0.35 else None
+        try:
+            cases.append({"kind": "expr", "b": _gen_expr(rng, d), "pts": _pts(rng, 2), "ord": rng.randrange(2)})
+        finally:
+            _CTX["syms"] = None
     for _ in range(500 if big else 70):
         d = rng.choice([1, 2, 3, 4] if big else [1, 2, 3])
-        cases.append({"kind": "expr", "b": _gen_expr(rng, d, bad=0.25), "pts": _pts(rng, 1)})
+        cases.append({"kind": "expr", "b": _gen_expr(rng, d, bad=0.25), "pts": _pts(rng, 1), "ord": rng.randrange(2)})
     for _ in range(300 if big else 40):
-        cases.append({"kind": "expr", "b": _gen_noncanon(rng, rng.choice([2, 3])), "pts": _pts(rng, 2), "noncanon": True})
+        _CTX["syms"] = _palette(rng) if rng.random() < 0.25 else None
+        try:
+            cases.append({"kind": "expr", "b": _gen_noncanon(rng, rng.choice([2, 3])), "pts": _pts(rng, 2), "noncanon": True,
+                          "ord": rng.randrange(2)})
+        finally:
+            _CTX["syms"] = None
+    for _ in range(500 if big else 80):   # confusable symbol pairs in every branch of the dispatcher
+        a_, b_ = _confusable_pair(rng)
+        c_ = ["sym", rng.choice(["w", "y", "z"])]
+        b = rng.choice(_context_templates(a_, b_, c_) if rng.random() < (0.7 if b_[0] == "symstr" else 0.3) else _pair_templates(a_, b_, c_))
+        cases.append({"kind": "expr", "b": b, "pts": _pts(rng, 1), "ord": rng.randrange(2),
+                      **({"noncanon": True} if any(_get(b, p)[0] in ("add_ne", "mul_ne", "pow_ne") for p in _paths(b)) else {})})
+    n_exact = 0
+    for _ in range(2000 if big else 300):   # exotic numbers: huge / negative / zero integers in rational functions
+        if n_exact >= (100 if big else 16):
+            break
+        b = _gen_exact(rng, rng.choice([2, 3]))
+        if _exact_ok(b):
+            n_exact += 1
+            cases.append({"kind": "expr", "b": b, "pts": _pts(rng, 1), "ord": rng.randrange(2)})
     for _ in range(20 if big else 8):
         cases.append({"kind": "expr", "b": rng.choice([["pyint", rng.randrange(-9, 10)], ["pyflt", "5/4"], ["pycplx", "0", "1"],
                                                       ["pyobj", "str"], ["pyobj", "none"], ["pyobj", "list"], ["const", "true"]]),
                       "pts": []})
+    for _ in range(400 if big else 60):
+        cases.append(_gen_session(rng, big))
     for _ in range(600 if big else 80):
-        cases.append({"kind": "translate", "t": _gen_neutral(rng, rng.choice([1, 2, 3]))})
+        cases.append({"kind": "translate", "t": _gen_neutral(rng, rng.choice([1, 2, 3])), "list": rng.random() < 0.3,
+                      "ord": rng.randrange(2)})
+    for _ in range(200 if big else 30):
+        cases.append(_gen_tsession(rng))
     for _ in range(600 if big else 80):
         cases.append({"kind": "key", "name": _gen_name(rng)})
+    for _ in range(300 if big else 40):
+        cases.append(_gen_keyhist(rng))
     for _ in range(600 if big else 80):
         pfx = _gen_name(rng)
         while pfx and pfx[-1].isdigit():
@@ -581,6 +1031,7 @@ def generate(rng, tier):
         else:
             names = [_gen_name(rng) for _ in range(rng.randrange(0, 7))]
         cases.append({"kind": "sort", "names": names})
+    rng.shuffle(cases)   # the kinds are interleaved: every case runs after a varied history of calls of all the APIs
     return cases
 
 
@@ -607,8 +1058,14 @@ def nontrivial(c):
     k = c["kind"]
     if k == "expr":
         return _bdepth(c["b"]) >= 3 and _bhas(c["b"], ("sub", "div", "sqrt", "neg"))
+    if k == "session":
+        return any(_bdepth(st["b"]) >= 3 and _bhas(st["b"], ("sub", "div", "sqrt", "neg")) for st in c["steps"])
     if k == "translate":
         return _bdepth(c["t"]) >= 3
+    if k == "tsession":
+        return any(_bdepth(st["t"]) >= 3 for st in c["steps"])
+    if k == "keyhist":
+        return len({n for n in c["names"] if re.search(r"\d", n)}) >= 2 and len(c["ops"]) >= 3
     if k == "keypair":
         return len(c["d1"]) != len(c["d2"])
     if k == "sort":
@@ -652,72 +1109,157 @@ def run_impl(c):
         signal.signal(signal.SIGVTALRM, old)
 
 
+def _values(sympy, ref, backs, pts, tol=1e-9):
+    """value of the original at each assignment of its symbol objects against the value of each translation in `backs`
+    (the first and the repeated one) at the corresponding assignment by printed name"""
+    vals, alias = [], False
+    for pt in pts:
+        asg = _assign(ref, pt)
+        o = _num(ref, dict(asg))
+        if o is None:
+            vals.append(None)
+            continue
+        maps, al = _back_maps(asg)
+        alias = alias or al
+        scale = max(1.0, float(sympy.Abs(o)))
+        entry = {"orig": str(sympy.N(o, 15)), "at": _at(asg), "ok": True, "back": None, "which": None}
+        for which, back in backs:
+            best = None
+            for m in maps:
+                b = _num(back, m)
+                if b is not None and bool(sympy.N(sympy.Abs(o - b), 20) <= tol * scale):
+                    best = ("ok", b)
+                    break
+                if best is None:
+                    best = ("bad", b)
+            if best[0] != "ok":
+                entry.update(ok=False, back=None if best[1] is None else str(sympy.N(best[1], 15)), which=which)
+                break
+            if entry["back"] is None:
+                entry["back"] = str(sympy.N(best[1], 15))
+        vals.append(entry)
+    return vals, alias
+
+
+def _run_expr(c):
+    """one expression through the whole round trip, the way a long-running program would use the API:
+    convert, translate (SYMPY_DIALECT and another dialect, in the order given by c['ord']), then convert the SAME
+    expression again and translate again - both translations are judged against the original"""
+    sympy, se, tr, ex, so = _lib()
+    e = build(c["b"])
+    out = {"ser": ser(e), "cls": list(py_class(e)), "shape": shape_class(e), "addneg": has_add_of_negation(e)}
+    try:
+        tree = se.expression_from_sympy(e)
+    except (NotImplementedError, ValueError, TypeError) as err:
+        out["tree"] = _errkind(err)
+        out["err"] = out["tree"]
+        out["tout"] = out["tree"]
+        return out
+    out["tree"] = neutral(tree, ex)
+
+    def other_dialect(t):
+        try:
+            r = tr.translate_expression(t, t_dialect(se, ex))
+            return r.s if isinstance(r, T) else "bad:not-a-term-of-the-dialect:" + type(r).__name__
+        except (ValueError, TypeError) as err:
+            return _errkind(err)
+
+    def sympy_dialect(t):
+        try:
+            return None, tr.translate_expression(t, se.SYMPY_DIALECT)
+        except (ValueError, TypeError) as err:
+            return _errkind(err), None
+        except (ZeroDivisionError, OverflowError):
+            # Python folds constants of the neutral tree (1/0): the original has no value either (checked by the oracle)
+            return "err:zerodiv", None
+
+    if c.get("ord", 0) == 0:
+        out["tout"] = other_dialect(tree)
+        err, back = sympy_dialect(tree)
+    else:
+        err, back = sympy_dialect(tree)
+        out["tout"] = other_dialect(tree)
+    out["known"] = sorted(se.SYMPY_DIALECT.known_functions)
+    ref = round_constants(e)
+    if err is not None:
+        out["err"] = err
+        if err == "err:zerodiv":
+            out["orig_has_value"] = any(_num(ref, dict(_assign(ref, pt))) is not None for pt in c["pts"])
+        return out
+    out["err"] = None
+    out["back"] = str(back)[:200]
+    out["back_is_expr"] = isinstance(back, (sympy.Basic, int, float, complex)) and not isinstance(back, bool)
+    backs = [("first", back)]
+    # ---- the same request again (history: everything above has happened on the same module state)
+    try:
+        tree2 = se.expression_from_sympy(e)
+        t2 = neutral(tree2, ex)
+    except (NotImplementedError, ValueError, TypeError) as err2:
+        tree2, t2 = None, _errkind(err2)
+    if t2 != out["tree"]:
+        out["tree2"] = t2
+    if tree2 is None:
+        out["err2"] = t2
+    else:
+        err2, back2 = sympy_dialect(tree2)
+        if err2 is not None:
+            out["err2"] = err2
+        elif not (isinstance(back2, (sympy.Basic, int, float, complex)) and not isinstance(back2, bool)):
+            out["err2"] = "not-an-expression:" + type(back2).__name__
+        elif type(back2) is not type(back) or back2 != back or sympy.srepr(back2) != sympy.srepr(back):
+            out["back2"] = str(back2)[:200]
+            backs.append(("repeated", back2))
+    # an expression over symbols and INTEGERS only has an exact value on both sides: no rounding is conceded
+    exact = isinstance(e, sympy.Basic) and all(isinstance(a, sympy.Integer) for a in e.atoms(sympy.Number)) and not e.has(sympy.I) \
+        and not e.atoms(sympy.Function) and all(p.exp.is_Integer for p in e.atoms(sympy.Pow)) \
+        and not any(n.args and all(a.is_Number for a in n.args) for n in sympy.preorder_traversal(e))
+    # (a node of an evaluate=False tree whose operands are all numbers is folded by PYTHON arithmetic, 1/3 -> a double)
+    out["exact"] = bool(exact)
+    out["vals"], out["alias"] = _values(sympy, ref, backs if out["back_is_expr"] else [], c["pts"], 1e-25 if exact else 1e-9)
+    return out
+
+
 def _run_impl(c):
     sympy, se, tr, ex, so = _lib()
     k = c["kind"]
     if k == "expr":
-        e = build(c["b"])
-        out = {"ser": ser(e), "cls": list(py_class(e)), "shape": shape_class(e), "addneg": has_add_of_negation(e)}
-        try:
-            tree = se.expression_from_sympy(e)
-        except (NotImplementedError, ValueError, TypeError) as err:
-            out["tree"] = _errkind(err)
-            out["err"] = out["tree"]
-            out["tout"] = out["tree"]
-            return out
-        out["tree"] = neutral(tree, ex)
-        try:
-            out["tout"] = tr.translate_expression(tree, t_dialect(se, ex)).s
-        except (ValueError, TypeError) as err:
-            out["tout"] = _errkind(err)
-        try:
-            back = tr.translate_expression(tree, se.SYMPY_DIALECT)
-        except (ValueError, TypeError) as err:
-            out["err"] = _errkind(err)
-            return out
-        except (ZeroDivisionError, OverflowError):
-            # Python folds constants of the neutral tree (1/0): the original has no value either (checked by the oracle)
-            syms = [sympy.Symbol(s) for s in SYMS]
-            out["err"] = "err:zerodiv"
-            out["orig_has_value"] = any(_num(e, _point(syms, pt)) is not None for pt in c["pts"])
-            return out
-        out["err"] = None
-        out["back"] = str(back)[:200]
-        out["back_is_expr"] = isinstance(back, (sympy.Basic, int, float, complex)) and not isinstance(back, bool)
-        ref = round_constants(e)
-        syms = [sympy.Symbol(s) for s in SYMS]
-        vals = []
-        for pt in c["pts"]:
-            m = _point(syms, pt)
-            o = _num(ref, m)
-            if o is None:
-                vals.append(None)
-                continue
-            b = _num(back, {sympy.Symbol(str(s)): v for s, v in m.items()})
-            if b is None:
-                vals.append({"orig": str(o), "back": None, "ok": False})
-                continue
-            d = sympy.N(sympy.Abs(o - b), 20)
-            scale = max(1.0, float(sympy.Abs(o)))
-            vals.append({"orig": str(sympy.N(o, 15)), "back": str(sympy.N(b, 15)), "ok": bool(d <= 1e-9 * scale)})
-        out["vals"] = vals
-        # same free symbols by name (a translation may not invent or lose a symbol that matters)
-        return out
+        return _run_expr(c)
+    if k == "session":
+        return {"steps": [_run_expr(st) for st in c["steps"]]}
+    if k == "tsession":
+        return {"steps": [_run_impl({"kind": "translate", **st}) for st in c["steps"]]}
+    if k == "keyhist":
+        return _run_keyhist(c)
     if k == "translate":
-        tree = _to_neutral(c["t"], ex)
+        tree = _to_neutral(c["t"], ex, list if c.get("list") else tuple)
         out = {}
-        try:
-            out["tout"] = tr.translate_expression(tree, t_dialect(se, ex)).s
-        except (ValueError, TypeError) as err:
-            out["tout"] = _errkind(err)
-        try:
-            back = tr.translate_expression(tree, se.SYMPY_DIALECT)
-            out["err"] = None
-            out["back"] = str(back)[:200]
-        except (ValueError, TypeError) as err:
-            out["err"] = _errkind(err)
-        except (ZeroDivisionError, OverflowError):
-            out["err"] = "err:zerodiv"  # Python folded the constants of a hand-made tree (1j/0): not a translation
+
+        def other_dialect():
+            try:
+                r = tr.translate_expression(tree, t_dialect(se, ex))
+                return r.s if isinstance(r, T) else "bad:not-a-term-of-the-dialect:" + type(r).__name__
+            except (ValueError, TypeError) as err:
+                return _errkind(err)
+
+        def sympy_dialect():
+            try:
+                return None, str(tr.translate_expression(tree, se.SYMPY_DIALECT))[:200]
+            except (ValueError, TypeError) as err:
+                return _errkind(err), None
+            except (ZeroDivisionError, OverflowError):
+                return "err:zerodiv", None  # Python folded the constants of a hand-made tree (1j/0): not a translation
+
+        if c.get("ord", 0) == 0:
+            out["tout"] = other_dialect()
+            out["err"], out["back"] = sympy_dialect()
+        else:
+            out["err"], out["back"] = sympy_dialect()
+            out["tout"] = other_dialect()
+        # the same tree OBJECT once more with both dialects (an argument container edited in place, or an answer
+        # remembered under an incomplete key, shows here)
+        out["err2"], out["back2"] = sympy_dialect()
+        out["tout2"] = other_dialect()
+        out["tree_after"] = neutral(tree, ex)
         out["known"] = sorted(se.SYMPY_DIALECT.known_functions)
         return out
     if k == "key":
@@ -734,7 +1276,51 @@ def _run_impl(c):
     raise AssertionError("unknown kind")
 
 
-def _to_neutral(t, ex):
+def _run_keyhist(c):
+    """a HISTORY of key requests on one module state: the same / equal-but-not-identical / sibling symbols are keyed
+    repeatedly, and the caller edits every list it was handed (a key list is the caller's to keep) before asking again"""
+    sympy, se, tr, ex, so = _lib()
+    names = c["names"]
+    kept = [ex.Symbol(n) for n in names]
+
+    def obj(i, variant):
+        n = names[i]
+        if variant == "ex" or not n:
+            return kept[i]
+        if variant == "ex2":
+            return ex.Symbol("".join(list(n)))  # equal, not identical (a fresh str object as well)
+        if variant == "sp":
+            return sympy.Symbol(n)
+        if variant == "du":
+            return sympy.Dummy(n)
+        raise AssertionError(variant)
+
+    def edit(lst, how):
+        if how == "append":
+            lst.append("~poison~")
+        elif how == "reverse":
+            lst.reverse()
+        elif how == "clear":
+            lst.clear()
+        elif how == "set0" and lst:
+            lst[0] = 10 ** 6
+            lst[-1] = "~"
+
+    res = []
+    for op, i, variant, how in c["ops"]:
+        if op in ("nat", "rev"):
+            got = (so.natural_key if op == "nat" else so.natural_key_revlex)(obj(i, variant))
+            res.append(_key_json(list(got)))
+            if isinstance(got, list):
+                edit(got, how)
+        else:
+            fn = so.natural_key if op == "sortnat" else so.natural_key_revlex
+            objs = [obj(j, variant) for j in range(len(names))]
+            res.append([o.name for o in sorted(objs, key=fn)])
+    return {"res": res}
+
+
+def _to_neutral(t, ex, container=tuple):
     if t[0] == "sym":
         return ex.Symbol(t[1])
     if t[0] == "num":
@@ -744,7 +1330,7 @@ def _to_neutral(t, ex):
         if n[0] == "flt":
             return float(Fraction(n[1]))
         return complex(float(Fraction(n[1])), float(Fraction(n[2])))
-    return ex.FunctionCall(t[1], tuple(_to_neutral(a, ex) for a in t[2]))
+    return ex.FunctionCall(t[1], container(_to_neutral(a, ex, container) for a in t[2]))
 
 
 def _key_json(key):
@@ -759,16 +1345,28 @@ def _cmp(a, b):
 
 
 # ------------------------------------------------------------------ model side
+def _req_expr(c, out):
+    if not isinstance(out, dict) or "ser" not in out:
+        return []
+    if c.get("noncanon") and out.get("addneg"):
+        return []
+    return [("pipeline", {"e": out["ser"]})]
+
+
 def requests(c, out):
     k = c["kind"]
     if k == "expr":
-        if not isinstance(out, dict) or "ser" not in out:
+        return _req_expr(c, out)
+    if k == "session":
+        if not isinstance(out, dict) or "steps" not in out:
             return []
-        if c.get("noncanon") and out.get("addneg"):
-            return []
-        return [("pipeline", {"e": out["ser"]})]
+        return [r for st, o in zip(c["steps"], out["steps"]) for r in (_req_expr(st, o) or [("known", {})])]
     if k == "translate":
         return [("translate", {"t": c["t"]}), ("known", {})]
+    if k == "tsession":
+        return [r for st in c["steps"] for r in (("translate", {"t": st["t"]}), ("known", {}))]
+    if k == "keyhist":
+        return [("key", {"name": n}) for n in c["names"]]
     if k == "key":
         return [("key", {"name": c["name"]})]
     if k == "keypair":
@@ -811,6 +1409,40 @@ def _tree_eq(m, i):
 _FLT = re.compile(r"f:-?\d+(?:/\d+)?")
 
 
+def _cmp_expr(c, out, r):
+    if not isinstance(r, dict):   # the step had no model request (placeholder answer)
+        return None
+    if not _tree_eq(r["tree"], out["tree"]):
+        return f"expression_from_sympy: impl {out['tree']} model {r['tree']} on {out['ser']}"
+    if "tree2" in out:
+        return f"expression_from_sympy called again on the same expression: impl {out['tree2']} model {r['tree']} on {out['ser']}"
+    mo, io = r["out"], out["tout"]
+    if mo != io and _FLT.sub("f:#", mo) != _FLT.sub("f:#", io):
+        return f"translate_expression with the dialect table: impl {io} model {mo}"
+    if not c.get("noncanon"):
+        cls = out["cls"][0]
+        if r["supported"] != (cls in ("supported", "lenient")):
+            return f"grammar classification: model supported={r['supported']} python class {out['cls']}"
+        if r["supported"] and mo.startswith("err:"):
+            return f"model refuses a supported expression: {mo}"
+    return None
+
+
+def _cmp_translate(c, out, r_t, r_known):
+    for which in ("tout", "tout2"):
+        if r_t != out[which]:
+            return f"translate_expression ({'first' if which == 'tout' else 'second'} call on the same tree): impl {out[which]} model {r_t} on {c['t']}"
+    if sorted(r_known) != out["known"]:
+        return f"dialect keys: impl {out['known']} model {sorted(r_known)}"
+    if not _tree_eq(c["t"], out["tree_after"]):
+        return f"translate_expression changed its argument tree {c['t']} into {out['tree_after']}"
+    return None
+
+
+def _model_sortable(key):
+    return [x[1] for x in key]
+
+
 def compare(c, out, resp):
     if isinstance(out, dict) and out.get("skipped"):
         return None
@@ -819,24 +1451,36 @@ def compare(c, out, resp):
             return "driver error: " + r["driver_error"]
     k = c["kind"]
     if k == "expr":
-        r = resp[0]
-        if not _tree_eq(r["tree"], out["tree"]):
-            return f"expression_from_sympy: impl {out['tree']} model {r['tree']} on {out['ser']}"
-        mo, io = r["out"], out["tout"]
-        if mo != io and _FLT.sub("f:#", mo) != _FLT.sub("f:#", io):
-            return f"translate_expression with the dialect table: impl {io} model {mo}"
-        if not c.get("noncanon"):
-            cls = out["cls"][0]
-            if r["supported"] != (cls == "supported"):
-                return f"grammar classification: model supported={r['supported']} python class {out['cls']}"
-            if r["supported"] and mo.startswith("err:"):
-                return f"model refuses a supported expression: {mo}"
+        return _cmp_expr(c, out, resp[0])
+    if k == "session":
+        for j, (st, o, r) in enumerate(zip(c["steps"], out["steps"], resp)):
+            m = _cmp_expr(st, o, r) if "tree" in o else None
+            if m:
+                return f"step {j}: {m}"
         return None
     if k == "translate":
-        if resp[0] != out["tout"]:
-            return f"translate_expression: impl {out['tout']} model {resp[0]} on {c['t']}"
-        if sorted(resp[1]) != out["known"]:
-            return f"dialect keys: impl {out['known']} model {sorted(resp[1])}"
+        return _cmp_translate(c, out, resp[0], resp[1])
+    if k == "tsession":
+        for j, (st, o) in enumerate(zip(c["steps"], out["steps"])):
+            m = _cmp_translate(st, o, resp[2 * j], resp[2 * j + 1])
+            if m:
+                return f"step {j}: {m}"
+        return None
+    if k == "keyhist":
+        mk = {n: r for n, r in zip(c["names"], resp)}
+        for j, ((op, i, variant, how), got) in enumerate(zip(c["ops"], out["res"])):
+            if op in ("nat", "rev"):
+                want = mk[c["names"][i]]["key" if op == "nat" else "revlex"]
+                if got != want:
+                    return f"step {j} {op}({c['names'][i]!r}, {variant}) after {c['ops'][:j]}: impl {got} model {want}"
+            else:
+                which = "key" if op == "sortnat" else "revlex"
+                try:
+                    want = sorted(c["names"], key=lambda n: _model_sortable(mk[n][which]))
+                except TypeError:
+                    continue  # keys the model calls incomparable (never for keys of this generator)
+                if got != want:
+                    return f"step {j} sorted by {op}: impl {got} model {want}"
         return None
     if k == "key":
         r = resp[0]
@@ -886,6 +1530,66 @@ def _nat_sort_key(name):
     return [t[1] for t in toks]
 
 
+ALIAS_SIG = "distinct-symbols-printing-identically-are-merged"
+
+
+def _oracle_expr(c, out):
+    """sentences 1 and 2 on one round trip (and on its repetition)"""
+    cls, what = out["cls"]
+    err = out.get("err")
+    if cls in ("supported", "lenient"):
+        if err == "err:zerodiv" and not out.get("orig_has_value"):
+            return None  # constant division by zero: the original denotes no number, nothing is claimed
+        if err is not None:
+            if cls == "lenient":
+                return None
+            return ("supported-refused:" + out["shape"], f"supported expression {out['ser']} refused with {err}")
+        if not out.get("back_is_expr"):
+            return ("supported-not-expression", f"translation of {out['ser']} is not an expression: {out.get('back')}")
+        for v in out.get("vals", []):
+            if v is not None and not v["ok"]:
+                rep = v.get("which") == "repeated"
+                tr_ = out.get("back2") if rep else out.get("back")
+                if out.get("alias"):
+                    return (ALIAS_SIG,
+                            f"{out['ser']} contains different symbols that print identically; it evaluates to {v['orig']} at "
+                            f"{v['at']} but its translation {tr_} to {v['back']} whichever of their values the merged symbol is given")
+                return (("value-on-repeat:" if rep else "value:") + out["shape"],
+                        f"{out['ser']} evaluates to {v['orig']} but its {'REPEATED ' if rep else ''}translation {tr_} to {v['back']} at {v['at']}"
+                        + (f" (the first translation was {out.get('back')})" if rep else ""))
+        if out.get("err2") is not None and not (out["err2"] == "err:zerodiv"):
+            return ("supported-refused-on-repeat:" + out["shape"],
+                    f"supported expression {out['ser']} was translated to {out.get('back')} the first time and refused with {out['err2']} when the same request was repeated")
+        return None
+    if cls == "passthrough":
+        return None  # oo / nan are handed through unchanged (identity): nothing is translated to something else
+    if err is None:
+        if cls == "collision":
+            return ("function-name-collides-with-dialect-key",
+                    f"{what} in {out['ser']} is outside the supported set but was translated to {out.get('back')}")
+        return ("unsupported-accepted:" + what.split(":")[0], f"{what} in {out['ser']} was not refused: {out.get('back')}")
+    return None
+
+
+def _oracle_translate(c, out):
+    names = []
+
+    def walk(t):
+        if t[0] == "call":
+            names.append(t[1])
+            for a in t[2]:
+                walk(a)
+
+    walk(c["t"])
+    if any(n not in KEYS for n in names):
+        if out.get("err") is None:
+            return ("unknown-function-translated", f"neutral tree {c['t']} with a function outside the dialect gave {out.get('back')}")
+        if out.get("err2") is None:
+            return ("unknown-function-translated", f"neutral tree {c['t']} with a function outside the dialect was refused "
+                                                   f"the first time and gave {out.get('back2')} when translated again")
+    return None
+
+
 def oracle(c, out):
     k = c["kind"]
     if not isinstance(out, dict):
@@ -895,40 +1599,37 @@ def oracle(c, out):
     if "exc" in out:
         return ("impl-raise:" + out["exc"], f"implementation raised {out['exc']}: {out.get('msg')}")
     if k == "expr":
-        cls, what = out["cls"]
-        err = out.get("err")
-        if cls == "supported":
-            if err == "err:zerodiv" and not out.get("orig_has_value"):
-                return None  # constant division by zero: the original denotes no number, nothing is claimed
-            if err is not None:
-                return ("supported-refused:" + out["shape"], f"supported expression {out['ser']} refused with {err}")
-            if not out.get("back_is_expr"):
-                return ("supported-not-expression", f"translation of {out['ser']} is not an expression: {out.get('back')}")
-            for pt, v in zip(c["pts"], out.get("vals", [])):
-                if v is not None and not v["ok"]:
-                    return ("value:" + out["shape"],
-                            f"{out['ser']} evaluates to {v['orig']} but its translation {out.get('back')} to {v['back']} at {dict(zip(SYMS, pt))}")
-            return None
-        if cls == "passthrough":
-            return None  # oo / nan are handed through unchanged (identity): nothing is translated to something else
-        if err is None:
-            if cls == "collision":
-                return ("function-name-collides-with-dialect-key",
-                        f"{what} in {out['ser']} is outside the supported set but was translated to {out.get('back')}")
-            return ("unsupported-accepted:" + what.split(":")[0], f"{what} in {out['ser']} was not refused: {out.get('back')}")
+        return _oracle_expr(c, out)
+    if k == "session":
+        for j, (st, o) in enumerate(zip(c["steps"], out["steps"])):
+            r = _oracle_expr(st, o)
+            if r is not None:
+                return (r[0], f"step {j} of {len(c['steps'])} (after the round trips of the preceding steps): {r[1]}")
         return None
     if k == "translate":
-        names = []
-
-        def walk(t):
-            if t[0] == "call":
-                names.append(t[1])
-                for a in t[2]:
-                    walk(a)
-
-        walk(c["t"])
-        if any(n not in KEYS for n in names) and out.get("err") is None:
-            return ("unknown-function-translated", f"neutral tree {c['t']} with a function outside the dialect gave {out.get('back')}")
+        return _oracle_translate(c, out)
+    if k == "tsession":
+        for j, (st, o) in enumerate(zip(c["steps"], out["steps"])):
+            r = _oracle_translate(st, o)
+            if r is not None:
+                return (r[0], f"step {j} of {len(c['steps'])}: {r[1]}")
+        return None
+    if k == "keyhist":
+        for j, ((op, i, variant, how), got) in enumerate(zip(c["ops"], out["res"])):
+            hist = f"after the calls {c['ops'][:j]} on names {c['names']}" if j else "as the first call"
+            if op in ("nat", "rev"):
+                want = _nat_sort_key(c["names"][i])
+                if op == "rev":
+                    want = want[::-1]
+                if [x[1] for x in got] != want:
+                    return ("natural-key-history" if j else ("natural-key" if op == "nat" else "natural-key-revlex"),
+                            f"natural_key{'_revlex' if op == 'rev' else ''}({c['names'][i]!r} as {variant}) = {[x[1] for x in got]}, "
+                            f"digit groups are {want} ({hist})")
+            else:
+                want = sorted(c["names"], key=(_nat_sort_key if op == "sortnat" else (lambda n: _nat_sort_key(n)[::-1])))
+                if got != want:
+                    return ("natural-sort-history" if j else ("natural-sort" if op == "sortnat" else "natural-sort-revlex"),
+                            f"sorted by natural_key{'_revlex' if op == 'sortrev' else ''} {got} expected {want} ({hist})")
         return None
     if k == "key":
         want = _nat_sort_key(c["name"])
@@ -958,12 +1659,38 @@ def oracle(c, out):
 def distribution(cases, outs):
     d = {"expr_supported": 0, "expr_refused": 0, "expr_collision": 0, "expr_passthrough": 0, "points_compared": 0,
          "points_without_value": 0, "shapes": {}, "refusal_kinds": {},
+         "round_trips": 0, "round_trips_in_sessions": 0, "with_dummy": 0, "with_assumption_symbol": 0, "with_exotic_name": 0,
+         "symbols_printing_identically": 0, "exact_integer_arithmetic": 0, "repeated_translation_differs_in_form": 0,
+         "neutral_trees_with_list_arguments": 0, "key_history_calls": 0,
          "skipped_cpu_budget": sum(1 for o in outs if isinstance(o, dict) and o.get("skipped"))}
+    flat = []
     for c, o in zip(cases, outs):
-        if c["kind"] != "expr" or not isinstance(o, dict) or "cls" not in o:
+        if not isinstance(o, dict):
             continue
+        if c["kind"] == "expr":
+            flat.append((c, o, False))
+        elif c["kind"] == "session" and "steps" in o:
+            flat.extend((st, so_, True) for st, so_ in zip(c["steps"], o["steps"]))
+        elif c["kind"] == "translate":
+            d["neutral_trees_with_list_arguments"] += bool(c.get("list"))
+        elif c["kind"] == "tsession":
+            d["neutral_trees_with_list_arguments"] += sum(bool(st.get("list")) for st in c["steps"])
+        elif c["kind"] == "keyhist" and "res" in o:
+            d["key_history_calls"] += len(o["res"])
+    for c, o, in_session in flat:
+        if not isinstance(o, dict) or "cls" not in o:
+            continue
+        d["round_trips"] += 1
+        d["round_trips_in_sessions"] += in_session
+        txt = common.canon(c["b"])
+        d["with_dummy"] += '"dummy"' in txt
+        d["with_assumption_symbol"] += '"asym"' in txt
+        d["with_exotic_name"] += any(common.canon(["sym", n])[1:-1] in txt for n in EXOTIC) or '"symstr"' in txt
+        d["symbols_printing_identically"] += bool(o.get("alias"))
+        d["exact_integer_arithmetic"] += bool(o.get("exact"))
+        d["repeated_translation_differs_in_form"] += "back2" in o
         cls = o["cls"][0]
-        if cls == "supported":
+        if cls in ("supported", "lenient"):
             d["expr_supported"] += 1
         elif cls == "collision":
             d["expr_collision"] += 1
